@@ -292,9 +292,10 @@ func crashPoint(c *drv.Ctx, bin string, cs *census, name, mode string, n int64, 
 		c.Violation("metadata-malformed:"+opk+":"+strings.SplitN(b, ":", 2)[0], fmt.Sprintf("after crash %s:%d during %q: %s", mode, n, desc, b), witness)
 	}
 
+	var got *mixed.Snap
 	if wd != nil && done >= 0 {
 		wd.W, wd.C.W = w2, w2
-		got, err := wd.SnapshotH(nil, cs.hints)
+		got, err = wd.SnapshotH(nil, cs.hints)
 		if err != nil && strings.Contains(err.Error(), drv.ErrWatchdog.Error()) {
 			// a read outlived the wall-clock watchdog: a verdict only if the goroutine dump shows it can never return
 			if wedged, where := drv.Wedged(w2.Stderr()); wedged {
@@ -406,6 +407,40 @@ func crashPoint(c *drv.Ctx, bin string, cs *census, name, mode string, n int64, 
 	}
 	if msg := usable(w2); msg != "" {
 		c.Violation("unusable-after-recovery:"+opk, fmt.Sprintf("after crash %s:%d during %q: %s; stderr: %s", mode, n, desc, msg, drv.Trunc(drv.FatalInStderr(w2.Stderr()), 400)), witness)
+		return nil
+	}
+	if got == nil {
+		return nil
+	}
+	// The recovered server went on working (a new repository, an instance, a write, a commit, a new version - all
+	// acknowledged).  Nothing that was readable right after the recovery may be lost by that work or by the next start.
+	stop(w2)
+	w5, err := restart("")
+	if err != nil {
+		c.Violation("restart-fails-after-recovered-work:"+opk, fmt.Sprintf("crash %s:%d during %q, recovery, new work on the recovered server, then the next start fails: %v; stderr: %s", mode, n, desc, err, drv.Trunc(drv.FatalInStderr(w5.Stderr()), 700)), witness)
+		return nil
+	}
+	defer w5.Kill()
+	wd.W, wd.C.W = w5, w5
+	got2, err := wd.SnapshotH(nil, cs.hints)
+	if err != nil {
+		if strings.Contains(err.Error(), drv.ErrWatchdog.Error()) {
+			c.Inconclusive(fmt.Sprintf("crash %s:%d: a read after the second start outlived the watchdog: %v", mode, n, err))
+			return nil
+		}
+		c.Violation("snapshot-fails-after-recovered-work:"+opk, fmt.Sprintf("crash %s:%d during %q, recovery, new work, restart: the read surface fails: %v; stderr: %s", mode, n, desc, err, drv.Trunc(drv.FatalInStderr(w5.Stderr()), 500)), witness)
+		return nil
+	}
+	var gone []string
+	for u, v := range got.M {
+		if v2, ok := got2.M[u]; !ok || v2 != v {
+			gone = append(gone, fmt.Sprintf("%s: after recovery %s, after new work + restart %s", u, drv.Trunc(v, 140), drv.Trunc(got2.M[u], 140)))
+		}
+	}
+	c.Count("urls_compared_after_recovered_work", len(got.M))
+	if len(gone) > 0 {
+		sort.Strings(gone)
+		c.Violation("recovered-state-lost-by-later-work:"+opk+":"+famOf(gone[0]), fmt.Sprintf("crash %s:%d during %q: state readable after the recovery is gone after acknowledged new work (new repo, instance, write, commit, new version) and a restart (%d urls): %s", mode, n, desc, len(gone), strings.Join(head(gone, 3), " || ")), witness)
 	}
 	return nil
 }
@@ -459,9 +494,9 @@ func run(c *drv.Ctx) error {
 	}
 	wls := []wl{{"w0", []string{"kv", "lm", "nj"}, c.N(12, 30)}}
 	if !c.Quick() {
-		wls = append(wls, wl{"w1", []string{"kv", "lm", "ann", "roi", "img", "nj"}, 30}, wl{"w2", []string{"kv"}, 60}, wl{"w3", []string{"lm", "ann"}, 30}, wl{"w4", []string{"kv", "nj", "roi", "img"}, 40}, wl{"w5", []string{"kv", "admin"}, 80})
+		wls = append(wls, wl{"w1", []string{"kv", "lm", "ann", "roi", "img", "nj"}, 30}, wl{"w2", []string{"kv"}, 60}, wl{"w3", []string{"lm", "ann"}, 30}, wl{"w4", []string{"kv", "nj", "roi", "img"}, 40}, wl{"w5", []string{"kv", "admin"}, 80}, wl{"w6", []string{"lm"}, 40})
 	} else {
-		wls = append(wls, wl{"w1", []string{"kv", "ann", "lm", "roi", "img"}, 10}, wl{"w2", []string{"kv", "admin"}, 30})
+		wls = append(wls, wl{"w1", []string{"kv", "ann", "lm", "roi", "img"}, 10}, wl{"w2", []string{"kv", "admin"}, 30}, wl{"w3", []string{"lm"}, 14})
 	}
 	type job struct {
 		cs     *census
